@@ -388,7 +388,20 @@ func (r *run) judgeNext(before []seatView, dBefore int, res opResult) {
 		}
 	} else if len(ord) >= 3 {
 		if sb != ord[1] || bb != ord[2] {
-			r.viol("C08", "blinds-not-next-to-dealer", fmt.Sprintf("playable clockwise from dealer %v: sb %d bb %d", ord, sb, bb))
+			sig := "blinds-not-next-to-dealer"
+			// discriminating facts of the recorded finding: heads-up layout
+			// on the first two playable seats, and every further playable
+			// seat was let in by this very Next()
+			lateOnly := sb == d && bb == ord[1]
+			for _, id := range ord[2:] {
+				if inInts(B, id) {
+					lateOnly = false
+				}
+			}
+			if lateOnly {
+				sig = "heads-up-positions-with-three-playable: waiting players after the big blind were let in after the heads-up decision"
+			}
+			r.viol("C08", sig, fmt.Sprintf("playable clockwise from dealer %v (playable before the call %v): sb %d bb %d", ord, B, sb, bb))
 		}
 	}
 }
@@ -416,7 +429,15 @@ func (r *run) quiet(E int, hands int, pid int32) {
 	if d < 0 || bb < 0 || E < 0 || E >= n || r.mod.occ[E] != 0 || r.mod.res[E] || !inInts(between(d, bb, n), E) {
 		return // not applicable at this state (e.g. after minimisation)
 	}
+	// the positions must be live: the players holding the button and the big
+	// blind are still there and able to play ("other players staying put")
+	pl := playable(r.seats())
+	if !inInts(pl, d) || !inInts(pl, bb) {
+		r.probe("newcomer-scenario-skipped-stale-positions")
+		return
+	}
 	r.probe("newcomer-scenario")
+	wasActive := r.seats()[E].active
 	res := r.seqOp(opSpec{Kind: "join", Seat: E, PID: pid})
 	if r.dead || res.Err != "" {
 		return
@@ -434,7 +455,21 @@ func (r *run) quiet(E int, hands int, pid int32) {
 		isPlayable := inInts(playable(r.seats()), E)
 		switch {
 		case isPlayable && !nowPassed:
-			r.viol("C08", "newcomer-dealt-in-before-button-passed", fmt.Sprintf("seat %d dealt in with dealer %d -> %d (button has not passed it)", E, dPrev, dNew))
+			// leniency: when the blinds have moved so that the seat now lies
+			// beyond the big blind, coming in is ordinary poker and the
+			// statement ("between the dealer and the big blind") is read as
+			// no longer applying to it
+			bbNew := seatID(r.m.BigBlind())
+			if E != dNew && E != bbNew && !inInts(between(dNew, bbNew, n), E) {
+				r.probe("newcomer-beyond-new-big-blind")
+				passed = true // from now on it may play
+				continue
+			}
+			sig := "newcomer-dealt-in-before-button-passed"
+			if wasActive {
+				sig += ": seat was still active when taken (vacated since the last hand)"
+			}
+			r.viol("C08", sig, fmt.Sprintf("seat %d dealt in with dealer %d -> %d (button has not passed it)", E, dPrev, dNew))
 		case !isPlayable && nowPassed:
 			r.viol("C08", "newcomer-not-dealt-in-after-button-passed", fmt.Sprintf("seat %d still out with dealer %d -> %d (button has passed it)", E, dPrev, dNew))
 		}
